@@ -1009,6 +1009,161 @@ theorem quic_capture_exact_encoded {L : SealLaws Pc} {args : Args} {keyFile : Op
 
 end Capture
 
+/-! ### no abort: nothing else exported, explicit ranges -/
+
+section Ranges
+open TLX.Export TLX.Quic.Session TLX.Cipher TLX.Props.C02Session TLX.Spec.KeySchedules TLX.Props.C01File2
+variable (maskFn : Quic.Dissect.MaskFn) (H : Crypto.Prims) (Pc : Cipher.Prims)
+
+/-- a packet the TLS side of the main loop does not take: not a TCP segment with payload -/
+def NotTls (p : MainLoop.Pkt) : Prop := ¬ (p.l4 = .tcp ∧ p.payload ≠ [])
+
+theorem tcpView_qdescribed (fl : Flow) (wH : DgH → Bytes) (w1 : Dg1 → Bytes) (o : Opts) (hc : o.checksumTest = false)
+    (evs : List QEv) (hd : QDescribed fl wH w1 o evs)
+    (hf : ∀ e, QEv.foreign e ∈ evs → ∀ tag, NotTls (pktOf tag e.d)) (n : Nat) :
+    Spec.Demux.tcpView o (itemsFrom n (evs.map QEv.cap)) = [] := by
+  induction evs generalizing n with
+  | nil => rfl
+  | cons ev rest ih =>
+    rw [List.map_cons, itemsFrom, tcpView_cons,
+      ih (fun e he => hd e (List.mem_cons_of_mem _ he)) (fun e he => hf e (List.mem_cons_of_mem _ he)), List.append_nil,
+      tcpView_frame o hc]
+    have hev := hd ev (List.mem_cons_self ..)
+    cases ev with
+    | hs t fr u d =>
+      have hp := pktOf_dg fl d.srv fr u hev.1 n
+      simp only [QEv.cap, hp]; simp
+    | one t fr u d =>
+      have hp := pktOf_dg fl d.x.srv fr u hev.1 n
+      simp only [QEv.cap, hp]; simp
+    | foreign e =>
+      have := hf e (List.mem_cons_self ..) n
+      have h' : ¬ ((pktOf n (QEv.foreign e).cap.d).l4 = .tcp ∧ (pktOf n (QEv.foreign e).cap.d).payload ≠ []) := this
+      exact if_neg h'
+
+/-- nothing else is exported when the capture has no TCP payload besides the QUIC session: `OthersFit` -/
+theorem othersFit_of_noTcp (args : Args) (keyFile : Option Keylog.Str) (cap : List CapEv)
+    (pm : List (Int × Int)) (ports : List Int)
+    (hpm : Options.getPortMap Options.Src.bare args.mArg = .ok pm)
+    (hports : Options.serverPorts Options.Src.builtin Options.Src.pDefault args.pArg = .ok ports)
+    (htcp : Spec.Demux.tcpView (optsOf args ports pm) (itemsFrom 0 cap) = [])
+    (sess : QuicSess QConn)
+    (hq : quicRun (quicMachine maskFn H Pc (capInfo cap)) (optsOf args ports pm) []
+      (quicView (optsOf args ports pm) ((fileKeysOf keyFile).getD []) (itemsFrom 0 cap)) = [sess])
+    (blk : List Pipeline.OutPkt)
+    (hblk : (quicMachine maskFn H Pc (capInfo cap)).out args.metadata sess.st = blk) :
+    OthersFit maskFn H Pc args keyFile cap blk := by
+  intro out pre post hout hsplit
+  have hrun := C18.fresh_run_is (Pipeline.tlsMachine H Pc (capInfo cap)) (quicMachine maskFn H Pc (capInfo cap))
+    (optsOf args ports pm) ((fileKeysOf keyFile).getD []) (itemsFrom 0 cap)
+  rw [hq, htcp] at hrun
+  simp only [tlsRun, List.foldl_nil, List.flatMap_cons, List.flatMap_nil, List.append_nil, List.nil_append] at hrun
+  have hmd : (optsOf args ports pm).metadata = args.metadata := rfl
+  rw [hmd, hblk] at hrun
+  have hfr := framesFrom_eq maskFn H Pc args (fileKeysOf keyFile) (itemsFrom 0 cap) (capInfo cap) pm ports hpm hports
+  rw [hrun] at hfr
+  rw [hfr] at hout
+  cases hout
+  obtain ⟨h1, h2⟩ := append3_self pre blk post hsplit
+  subst h1; subst h2
+  intro x hx; cases hx
+
+/-- the write loop takes a UDP frame of the export: ports below 2^16, the payload fits the IP version's datagram, the time
+    fits dpkt's field -/
+theorem writesOk_addressed (c : QConn) (d : Quic.UdpOut.Dgram) (hcp : c.client.port < 65536)
+    (hsp : TcpOut.exportedServerPort c.opts.keep (Pipeline.portmapFn c.opts.portmap) c.server.port < 65536)
+    (hlen : (if c.ipv6 then 0 else 20) + 8 + d.payload.length < 65536) (hts : d.ts < 2 ^ 64) :
+    WritesOk (addressed c d) := by
+  refine ⟨(C06Bytes.serialize_ok_iff _).mpr ?_, ?_⟩
+  · unfold addressed
+    cases d.isServer <;> simp [Frame.ofOutPkt, hcp, hsp, hlen]
+  · unfold addressed
+    cases d.isServer <;> simpa using hts
+
+
+variable {maskFn H Pc}
+
+/-- the connection object the loop creates from the first datagram of a `QuicCapture`: the flow's endpoints in their roles,
+    its IP version, the run's options; the client's port is below 2^16 (it was in a UDP header) -/
+theorem conn_of_capture {L : SealLaws Pc} {args : Args} {keyFile : Option Keylog.Str} {pm : List (Int × Int)}
+    {ports : List Int} {fl : Flow} {hs : ConfHs} {ch sh ca sa : Bytes} {early : Option Bytes} {sel : SuiteSel}
+    {evsH evsO : List QEv} {kl0 : List Keylog.Key} {p0 : MainLoop.Pkt} {d0 : DgH}
+    {items : List (List Keylog.Key × MainLoop.Pkt × DgH)}
+    (h : QuicCapture maskFn H Pc L args keyFile pm ports fl hs ch sh ca sa early sel evsH evsO kl0 p0 d0 items) :
+    let c := (quicMachine maskFn H Pc (capInfo ((evsH ++ evsO).map QEv.cap))).new (optsOf args ports pm) p0
+    c.client = clientEp fl ∧ c.server = serverEp fl ∧ c.ipv6 = fl.v6 ∧ c.opts = optsOf args ports pm ∧
+      fl.clientPort < 65536 := by
+  intro c
+  have hmem : (kl0, p0, d0) ∈ hsItems fl ((fileKeysOf keyFile).getD []) 0 evsH := by rw [h.first]; simp
+  obtain ⟨i, t, fr, u, hi, hx⟩ := hsItems_mem fl _ evsH 0 _ hmem
+  simp only [Prod.mk.injEq] at hx
+  obtain ⟨_, hp0, _⟩ := hx
+  rw [h.fromClient, Nat.zero_add] at hp0
+  have hev : QEv.hs t fr u d0 ∈ evsH ++ evsO := List.mem_append_left _ (List.mem_of_getElem? hi)
+  obtain ⟨hdg, _, _, _⟩ := h.described _ hev
+  rw [h.fromClient] at hdg
+  have hc' : ¬ (fl.clientPort : Int) ∈ ports := by simpa using h.clientPort
+  have hroles : rolesOf (optsOf args ports pm).ports p0 = (serverEp fl, clientEp fl) := by
+    rw [hp0]; simp [rolesOf, dgPkt, clientEp, optsOf, hc']
+  have hcap : ((evsH ++ evsO).map QEv.cap)[i]? = some (QEv.hs t fr u d0).cap := by
+    rw [List.getElem?_map, List.getElem?_append_left (List.getElem?_eq_some_iff.mp hi).1, hi]; rfl
+  have hinfo := capInfo_at _ i _ hcap
+  simp only [QEv.cap] at hinfo
+  rw [infoOf_dg fl false fr u hdg] at hinfo
+  have htag : p0.tag = i := by rw [hp0]; rfl
+  refine ⟨congrArg Prod.snd hroles, congrArg Prod.fst hroles, ?_, rfl, ?_⟩
+  · show (capInfo _ p0.tag).ipv6 = fl.v6
+    rw [htag, hinfo]
+  · obtain ⟨hwf, hu, hsp, _⟩ := hdg
+    obtain ⟨_, _, huw, _⟩ := hwf
+    rw [hu] at huw
+    have : u.sport < 65536 := huw.1
+    rw [hsp] at this
+    simpa using this
+
+/-- **C02 FROM FILE TO FILE, no abort, explicit ranges.** Besides `QuicCapture`:
+    `hforeign`  the capture has no TCP payload (the foreign packets are not taken by the TLS side either), so the
+                connection's block is everything the run exports;
+    `hsp`       the exported server port (`-m` map, else 8080, or the original one) is below 2^16;
+    `hlen`      the STREAM data of one datagram fits a UDP datagram of the flow's IP version (it came out of one, so this
+                always holds for the same IP version; stated, not derived);
+    `hts`       the capture microseconds fit dpkt's 64-bit field (an IEEE-754 fact about the reader's doubles).
+    Then the file IS written and reads back exactly `blockOf`. -/
+theorem quic_capture_exact_ranges {L : SealLaws Pc} {args : Args} {keyFile : Option Keylog.Str} {pm : List (Int × Int)}
+    {ports : List Int} {fl : Flow} {hs : ConfHs} {ch sh ca sa : Bytes} {early : Option Bytes} {sel : SuiteSel}
+    {evsH evsO : List QEv} {kl0 : List Keylog.Key} {p0 : MainLoop.Pkt} {d0 : DgH}
+    {items : List (List Keylog.Key × MainLoop.Pkt × DgH)}
+    (h : QuicCapture maskFn H Pc L args keyFile pm ports fl hs ch sh ca sa early sel evsH evsO kl0 p0 d0 items)
+    (legacy : Bool) (file : Bytes)
+    (hread : Container.read legacy file = .ok (((evsH ++ evsO).map QEv.cap).map CapEv.item))
+    (hforeign : ∀ e, QEv.foreign e ∈ evsH ++ evsO → ∀ tag, NotTls (pktOf tag e.d))
+    (hsp : TcpOut.exportedServerPort (Options.keepOriginalPorts args.mArg) (Pipeline.portmapFn pm) fl.serverPort < 65536)
+    (hlen : ∀ d ∈ (oneItems fl evsH.length evsO).map (·.2),
+      (if fl.v6 then 0 else 20) + 8 + (streamData d.x.frames).flatten.length < 65536)
+    (hts : ∀ d ∈ (oneItems fl evsH.length evsO).map (·.2), d.x.ts < 2 ^ 64) :
+    ∃ f, exportFile maskFn H Pc args legacy keyFile file = .file f ∧
+      ReadsBack f (blockOf (maskFn := maskFn) (H := H) (Pc := Pc) args pm ports fl evsH evsO p0) := by
+  obtain ⟨hcap, sess, hq, hblk⟩ := quic_capture_session maskFn H Pc h.lawful h.sha256 L args keyFile evsH evsO h.times
+    h.noc h.nometa pm ports h.pmOk h.portsOk fl h.endpoints h.clientPort hs h.hsOk ch sh ca sa early sel h.suite h.outLen
+    h.saLen h.caLen h.keylog kl0 p0 d0 items h.first h.fromClient h.described h.phaseH h.phaseO h.hsDgs h.hsIns h.keyed
+    h.send1 h.routes h.distinct
+  obtain ⟨c1, c2, c3, c4, c5⟩ := conn_of_capture h
+  refine export_of_quic_session_file maskFn H Pc args legacy keyFile file _ hread hcap h.noc pm ports h.pmOk h.portsOk sess
+    hq (expectedOut _ _) hblk ?_ ?_
+  · intro x hx
+    simp only [expectedOut, List.mem_map, List.mem_filter] at hx
+    obtain ⟨d, ⟨hd, _⟩, rfl⟩ := hx
+    have hd : d ∈ (oneItems fl evsH.length evsO).map (·.2) := List.mem_map.mpr hd
+    apply writesOk_addressed
+    · rw [c1]; exact c5
+    · rw [c4, c2]; exact hsp
+    · rw [c3]; exact hlen d hd
+    · exact hts d hd
+  · exact othersFit_of_noTcp maskFn H Pc args keyFile _ pm ports h.pmOk h.portsOk
+      (tcpView_qdescribed fl _ _ _ h.noc _ h.described hforeign 0) sess hq _ hblk
+
+end Ranges
+
 /-! ### what `ReadsBack … blockOf` means for an independent receiver -/
 
 section Receiver
